@@ -385,12 +385,23 @@ func rewriteStmt(s ast.Stmt) ast.Stmt {
 			cc.Body = rewriteList(cc.Body)
 		}
 	case *ast.SelectStmt:
-		if *chanOps {
-			die("%s: select is not supported by -chan", fset.Position(t.Pos()))
+		hasDefault := false
+		for _, c := range t.Body.List {
+			if c.(*ast.CommClause).Comm == nil {
+				hasDefault = true
+			}
+		}
+		if *chanOps && !hasDefault {
+			die("%s: a select that can block is not supported by -chan", fset.Position(t.Pos()))
 		}
 		for _, c := range t.Body.List {
 			cc := c.(*ast.CommClause)
 			cc.Body = rewriteList(cc.Body)
+		}
+		if *chanOps {
+			// a select with a default clause never blocks: under the cooperative scheduler it is one
+			// atomic step, preceded by a scheduling point like every other channel operation
+			return &ast.BlockStmt{List: []ast.Stmt{&ast.ExprStmt{X: call(vs("PointL"), &ast.BasicLit{Kind: token.STRING, Value: `"select"`})}, t}}
 		}
 	case *ast.LabeledStmt:
 		t.Stmt = rewriteStmt(t.Stmt)
